@@ -760,6 +760,21 @@ func (m *Monitors) Observe(idx int, r *Result) {
 				}
 			}
 		}
+	case "rpc":
+		// UpdateSubscription(expiration_policy): the subscription's expiry clock restarts with the new TTL
+		if ok && op.Rpc != nil && op.Rpc.Kind == "updateSub" && op.Rpc.Sub != nil {
+			for _, pth := range op.Rpc.Paths {
+				if pth != "expiration_policy" || op.Rpc.Sub.Expiration == nil || *op.Rpc.Sub.Expiration <= 0 {
+					continue
+				}
+				if s := liveSubByName(r.SubsAfter, op.Rpc.Sub.Name); s != nil {
+					m.lastPull[s.ID] = now
+					if ns(s.ExpiresAt) != now+*op.Rpc.Sub.Expiration {
+						m.fire("C14", "ttl-update-clock", "UpdateSubscription set the expiration TTL of %s to %d ns at t=%d; the subscription now expires at %d instead of %d", s.Name, *op.Rpc.Sub.Expiration, now, ns(s.ExpiresAt), now+*op.Rpc.Sub.Expiration)
+					}
+				}
+			}
+		}
 	case "expire_subs":
 		// only subscriptions without pull activity for a full TTL may be expired
 		for id, b := range r.SubsBefore {
